@@ -62,6 +62,7 @@ import JanetModel.Compile.SeqHintIf
 import JanetModel.Compile.SeqSet
 import JanetModel.Compile.SeqBoxInj
 import JanetModel.Compile.SeqSetSideH
+import JanetModel.Compile.MoveArgs
 namespace JanetModel.Props.C02
 open JanetModel.Emit
 
@@ -1091,7 +1092,8 @@ example : ({ tail := true } : Fopts).tail = true ∧ ({ tail := true } : Fopts).
     self name, `&`-parameters, upvalues (`janetc_popscope`'s `keep` reservations are modelled and compared word for word, not
     proved) — what a function's funcdef computes is proved (`compile_correct_thunk`, `compile_correct_fn_params`); (3) the
     top-level scope (`sc.top`: calls are never tail calls there, `def` makes globals); (4) far registers (`lim` > 0xF0: the
-    `emit_*_correct` theorems cover the emit layer, not yet connected).  Every construct outside these theorems stays
+    `emit_*_correct` theorems cover the emit layer, not yet connected; first far-register theorems: `fn_moveargs_correct` /
+    `fn_moveargs_allocated` — the entry moves of a function with > 240 parameters deliver every argument in its register).  Every construct outside these theorems stays
     translation-validated: model = real compiler word for word, real bytecode run by the Lean VM = real VM = `Lang/Sem`. -/
 theorem compile_correct_partial (fuel : Nat) (opts : Fopts) (c : CState) (hopts : opts.tail = false ∧ opts.hint = none) :
     (∀ v : Value, (match v with | .nil | .bool _ | .num _ | .str _ | .kw _ | .sym _ | .cfun _ => True | _ => False) →
@@ -1181,5 +1183,63 @@ example : fES (9 + 1 * 256 + ((32767 : Int) % 2 ^ loadIntBits).toNat * 65536) = 
 example : fC (0x1D + 3 * 256 + 4 * 65536 + (256 % 2 ^ 8) * 16777216) = 0 := by decide
 
 end OperandBounds
+
+/-! ## Functions with more than 240 parameters (session 4d): `janetc_fn_moveargs`, fix 71c4f8f
+
+The VM puts argument k in stack slot k; `janetc_fn` allocates every parameter with `janetc_farslot`, and the allocator never
+hands out the temporaries 0xF0–0xFF, so parameter k ≥ 0xF0 lives in register k + 16.  `Compile/Model.lean` mirrors the entry
+moves (`fnMoveArgs`, `moveArgsCode`; model = real compiler word for word on the `many_params` family of compgen.py).  These are
+the first theorems about FAR registers (gap (4) of `compile_correct_partial`): the emitted moves, run on the abstract machine of
+Emit/Machine.lean (MOVE_NEAR / MOVE_FAR as `Bytecode/Exec` executes them: `vm_executes_emit_words`), deliver every argument in its
+parameter's register — for EVERY number of parameters. -/
+section MoveArgs
+open JanetModel.Compile
+
+/-- **The entry moves are correct** (all n, all register assignments the allocator can produce): `n > 0xF0` stack arguments,
+    `reg k` = register of argument k with `reg k ≥ 0x100`, `reg k > k`, distinct registers; for `n > 0x100` the spare register
+    `park` is no argument's stack slot and no argument's register.  After `moveArgsCode n reg park` — highest argument first;
+    arguments ≥ 0x100 through temporary 0xFF, whose own argument is parked meanwhile — the register of every argument k ≥ 0xF0
+    holds what stack slot k held at entry, registers below 0xF0 are unchanged, and nothing else of the machine changes. -/
+theorem fn_moveargs_correct (lit : KConst → β) (F : Nat → List (RV β) → RV β) (m : M β) (n : Nat) (reg : Nat → Nat) (park : Nat)
+    (hn : 0xF0 < n)
+    (hge : ∀ k, 0xF0 ≤ k → k < n → 0x100 ≤ reg k ∧ k < reg k)
+    (hinj : ∀ j k, 0xF0 ≤ j → j < n → 0xF0 ≤ k → k < n → reg j = reg k → j = k)
+    (hpark : 0x100 < n → n ≤ park ∧ ∀ k, 0xF0 ≤ k → k < n → reg k ≠ park) :
+    (∀ k, 0xF0 ≤ k → k < n → (run lit F m (moveArgsCode n reg park)).regs (reg k) = m.regs k) ∧
+    (∀ r, r < 0xF0 → (run lit F m (moveArgsCode n reg park)).regs r = m.regs r) ∧
+    SameRest (run lit F m (moveArgsCode n reg park)) m :=
+  moveArgs_run lit F m n reg park hn hge hinj hpark
+
+/-- **… with the registers the allocator gives** (`argReg k` = k below the temporaries, k + 16 from the 241st parameter on —
+    `alloc1_param_far`: `janetc_regalloc_1` on the allocator the parameter loop has built returns k + 16 — and the spare register
+    n + 16): every parameter's register holds its argument.  Compiler side: `fnMoveArgs` appends exactly `moveArgsCode`
+    (`fnMoveArgs_code`) and changes nothing for ≤ 0xF0 parameters (`fnMoveArgs_near`: the case of `compile_correct_fn_params`). -/
+theorem fn_moveargs_allocated (lit : KConst → β) (F : Nat → List (RV β) → RV β) (m : M β) (n : Nat) (hn : 0xF0 < n) :
+    ((∀ k, k < n → (run lit F m (moveArgsCode n argReg (n + 16))).regs (argReg k) = m.regs k) ∧
+      SameRest (run lit F m (moveArgsCode n argReg (n + 16))) m) ∧
+    (∀ (ra : RA) (k : Nat), 0xF0 ≤ k → k + 16 < searchFuel →
+      (∀ r, ra.alloc r = decide (r < 0xF0 ∨ (0x100 ≤ r ∧ r < k + 16))) → ra.alloc1.1 = argReg k) ∧
+    (∀ (c c' : CState) (argregs : List Nat), 0xF0 < argregs.length → fnMoveArgs c argregs = some c' →
+      ∃ park, c'.buf = c.buf ++ (moveArgsCode argregs.length (fun k => argregs.getD k 0) park).map CI.mi) ∧
+    (∀ (c : CState) (argregs : List Nat), argregs.length ≤ 0xF0 → fnMoveArgs c argregs = some c) :=
+  ⟨moveArgs_alloc lit F m n hn, fun ra k h1 h2 h3 => alloc1_param_far ra k h1 h2 h3,
+   fun c c' a h1 h2 => fnMoveArgs_code c c' a h1 h2, fun c a h => fnMoveArgs_near c a h⟩
+
+/-- non-vacuity: 300 parameters — parameter 240 (register 256) receives the argument of stack slot 240, parameter 299 (register
+    315) that of slot 299, on a machine whose registers are all different -/
+example : (run (fun _ => 0) (fun _ _ => .v 0) ⟨fun r => .v r, fun _ _ => .v 0, fun _ => .v 0, [], true⟩
+    (moveArgsCode 300 argReg 316)).regs 256 = RV.v 240 := by
+  have h := (fn_moveargs_allocated (β := Nat) (fun _ => 0) (fun _ _ => .v 0) ⟨fun r => .v r, fun _ _ => .v 0, fun _ => .v 0, [], true⟩ 300
+    (by decide)).1.1 240 (by decide)
+  simpa [argReg] using h
+/-- the defect fix 71c4f8f removed: WITHOUT entry moves the register of parameter 240 holds the argument of stack slot 256 -/
+example : (run (fun _ => 0) (fun _ _ => .v 0) (⟨fun r => .v r, fun _ _ => .v 0, fun _ => .v 0, [], true⟩ : M Nat) []).regs (argReg 240)
+    = RV.v 256 := by simp [run, argReg]
+/-- the shape of the code for 258 parameters: park 0xFF, two arguments through 0xFF, fifteen direct moves, unpark -/
+example : moveArgsCode 258 argReg 274 =
+    [.movf 0xFF 274, .movn 0xFF 257, .movf 0xFF 273, .movn 0xFF 256, .movf 0xFF 272] ++
+    (List.range 15).map (fun j => MI.movf (0xFE - j) (0xFE - j + 16)) ++ [.movn 0xFF 274, .movf 0xFF 271] := by decide
+
+end MoveArgs
 
 end JanetModel.Props.C02
